@@ -199,7 +199,8 @@ class PredictEval:
                     saved = self.env.get(st.target.id)
                     self.env[st.target.id] = self.rows_of(it) or ROWIDX
                     inner = {}
-                    simple = all(isinstance(b, (ast.Assign, ast.Expr)) for b in st.body)
+                    simple = all(isinstance(b, (ast.Assign, ast.Expr, ast.If)) and not any(
+                        isinstance(x, (ast.Return, ast.Break, ast.Continue)) for x in ast.walk(b)) for b in st.body)
                     if simple:
                         self.block(st.body, inner)
                         for nm, vals in inner.items():
@@ -214,6 +215,22 @@ class PredictEval:
                 self._kill(st)
                 continue
             if isinstance(st, (ast.Import, ast.ImportFrom, ast.Pass)):
+                continue
+            if isinstance(st, ast.If) and all(isinstance(b, ast.Assign) and len(b.targets) == 1 and isinstance(b.targets[0], ast.Name)
+                                             for b in st.body + st.orelse):
+                before = dict(self.env)
+                for b in st.body:
+                    self.env[b.targets[0].id] = self.ev_assign(b.value)
+                then_env = dict(self.env)
+                self.env = dict(before)
+                for b in st.orelse:
+                    self.env[b.targets[0].id] = self.ev_assign(b.value)
+                else_env = self.env
+                merged = dict(before)
+                for nm in set(then_env) | set(else_env):
+                    a, b2 = then_env.get(nm, ("opaque", nm)), else_env.get(nm, ("opaque", nm))
+                    merged[nm] = a if a == b2 else ("alt", a, b2)
+                self.env = merged
                 continue
             # any other statement: names assigned inside become opaque; a return inside is not interpretable
             self._kill(st)
@@ -284,6 +301,8 @@ class PredictEval:
                 return ("opaque", "argmaxset[%s]" % show(idx))
             if idx == ROWIDX and self.rows_of(base):
                 return self.rows_of(base)
+            if idx == ("argmax", base) and (base == ROW or base[0] == "lossy"):
+                return ("max", base)
             if base[0] in ("self", "slice", "encoder-classes") or (base[0] == "opaque" and base[1].startswith("self.")):
                 if idx[0] == "map":
                     return ("map", ("index", base, idx[1]))
@@ -331,6 +350,15 @@ class PredictEval:
                 return PROBA
             hit = self.lookup(self.cls, f.attr)
             if hit is not None and hit[0] == "repo":
+                callee = hit[2]
+                b = astq.bind_call(callee, c, skip_self=True)
+                if b is not None and getattr(self, "depth", 0) < 3 and len(astq.returns(callee)) == 1 and len(callee.body) <= 3:
+                    sub = PredictEval(self.repo, hit[1].module, self.cls, hit[1], callee, self.lookup)
+                    sub.depth = getattr(self, "depth", 0) + 1
+                    sub.env = {p0: self.ev(a0) for p0, a0 in b.items() if isinstance(a0, ast.AST) and p0 not in ("*", "**")}
+                    res = sub.run()
+                    if res is not None and sub.returns == 1 and res[0] != "opaque":
+                        return res
                 return ("selfcall", f.attr, tuple(self.ev(a) for a in c.args))
         if ext in ("sktime.utils.validation.panel.check_X",) and c.args:
             return self.ev(c.args[0])
@@ -399,6 +427,8 @@ class PredictEval:
                 return ("argmax", cand[1])
             if cand[0] == "nonmaxset":
                 return ("argmin", cand[1])  # drawn among the positions that do NOT attain the maximum
+            if cand[0] == "nonzero" and cand[1] == ROW:
+                return ("anynonzero", ROW)  # drawn among all classes with a non-zero probability
             if cand[0] == "nonzero" and cand[1][0] == "cmp" and cand[1][1] == "Eq":
                 a, b = cand[1][2], cand[1][3]
                 for x, y in ((a, b), (b, a)):
@@ -591,6 +621,11 @@ def member_fit_sites(repo, flow, lookup, module, cls, defcls, fn, label_param=No
     for c in astq.calls(fn):
         f = c.func
         call = c
+        if isinstance(f, ast.Name) and f.id in fi.scope.stored:
+            # local alias of delayed(f): fit_one = delayed(_fit_estimator)
+            av = astq.assigned_values(fn, f.id)
+            if len(av) == 1 and isinstance(av[0], ast.Call):
+                f = av[0]
         if isinstance(f, ast.Call) and len(f.args) == 1 and not f.keywords and fi.scope.ext(f.func) in DELAYED:
             call = ast.copy_location(ast.Call(func=f.args[0], args=c.args, keywords=c.keywords), c)
             f = call.func
@@ -724,13 +759,33 @@ def as_comprehension(fn, v):
         if len(appends) != 1:
             return None
         loop, st = appends[0]
+        elt = st.value.args[0]
         if len(loop.body) != 1:
-            return None
+            # temporaries assigned once in the body before the append are substituted into the appended expression
+            temps = {}
+            for b in loop.body:
+                if b is st:
+                    continue
+                if isinstance(b, ast.Assign) and len(b.targets) == 1 and isinstance(b.targets[0], ast.Name) \
+                        and b.targets[0].id not in temps and loop.body.index(b) < loop.body.index(st):
+                    temps[b.targets[0].id] = b.value
+                else:
+                    return None
+            import copy
+
+            class Sub(ast.NodeTransformer):
+                def visit_Name(self, node):
+                    if isinstance(node.ctx, ast.Load) and node.id in temps:
+                        return Sub().visit(copy.deepcopy(temps[node.id]))
+                    return node
+
+            elt = Sub().visit(copy.deepcopy(elt))
+            ast.fix_missing_locations(elt)
         # acc must not be touched elsewhere (besides init, the append and its final read)
         loads = [n for n in astq.walk_no_nested(fn) if isinstance(n, ast.Name) and n.id == v.id]
         if len(loads) > 3:
             return None
-        return loop.target, loop.iter, st.value.args[0], []
+        return loop.target, loop.iter, elt, []
     return None
 
 
@@ -793,6 +848,12 @@ class Checker:
             alts = _alternatives(sel)
             if len(alts) > 1 and all(a == ("argmax", ROW) for a in alts):
                 sel = ("argmax", ROW)
+            anyz = [a for a in alts if a[0] == "anynonzero"]
+            if anyz:
+                ctx.violation("R1", name + ".predict:select", "on some branch the label index is drawn among *all* columns with a non-zero "
+                              "probability, not among the columns attaining the maximum", loc,
+                              witness={"term": show(term), "input": "row [0.4, 0.4, 0.2]: class 2 can be returned"})
+                return self.r1_table(cls, table, loc)
             pos = [a for a in alts if a[0] in ("randpos", "setsize")]
             if pos:
                 ctx.violation("R1", name + ".predict:select", "on some branch the label index is %s -- a position into the set of "
@@ -1701,10 +1762,12 @@ class Checker:
             lab = "y"
             c = "%s:labels-preserved" % fname
             bad, und = None, None
+            aliases = set()
+
             def preserving(v):
                 """True: same label values in the same order; False: derived from the labels otherwise; None: unrelated."""
                 if isinstance(v, ast.Name):
-                    return True if v.id == lab else None
+                    return True if (v.id == lab or v.id in aliases) else None
                 if isinstance(v, ast.Call):
                     f = v.func
                     ex = sc.ext(f)
@@ -1715,8 +1778,17 @@ class Checker:
                         return True
                 elif isinstance(v, ast.Attribute) and v.attr == "values" and preserving(v.value) is True:
                     return True
-                return False if any(isinstance(x, ast.Name) and x.id == lab for x in ast.walk(v)) else None
+                return False if any(isinstance(x, ast.Name) and (x.id == lab or x.id in aliases) for x in ast.walk(v)) else None
 
+            grown = True
+            while grown:
+                grown = False
+                for n in astq.walk_no_nested(fn):
+                    if isinstance(n, ast.Assign) and len(n.targets) == 1 and isinstance(n.targets[0], ast.Name) \
+                            and n.targets[0].id not in aliases and n.targets[0].id != lab \
+                            and len(astq.assigned_values(fn, n.targets[0].id)) == 1 and preserving(n.value) is True:
+                        aliases.add(n.targets[0].id)
+                        grown = True
             for n in astq.walk_no_nested(fn):
                 if isinstance(n, ast.Assign) and any(isinstance(t, ast.Name) and t.id == lab for t in n.targets):
                     pv = preserving(n.value)
@@ -1747,9 +1819,11 @@ class Checker:
                        self.ctx.loc(mod, fn))
 
     def feature_rows(self):
-        """R2 (time series forest features): `_transform` fills a (K * n_intervals, n_instances) buffer with K statistics per
-        interval j at rows K*j + b; the offsets b must be exactly 0..K-1 (every row written once, none overwritten, none
-        left uninitialised) and the statistics are mean, std and slope of the same interval slice."""
+        """R2 (time series forest features): `_transform` fills a buffer with K statistics per interval j at positions
+        K*j + b along the feature axis; the offsets b must be exactly 0..K-1 (every position written once, none overwritten,
+        none left uninitialised), the feature axis has K positions per interval, and the statistics are mean, std and slope
+        of the interval slice.  Understood shapes: row or column layout, direct stores, an inner `for k in range(K)` over a
+        tuple of statistics, a running position counter, a slice view handed to a helper."""
         ctx = self.ctx
         rel = "sktime/series_as_features/base/estimators/interval_based/_tsf.py"
         mod = self.repo.module(rel)
@@ -1757,40 +1831,67 @@ class Checker:
         sc = Scope(self.repo, mod, fn)
         loc = self.ctx.loc(mod, fn)
         c = "_transform:feature-rows"
-        loops = [n for n in astq.walk_no_nested(fn) if isinstance(n, ast.For) and isinstance(n.target, ast.Name)]
+        loops = [n for n in fn.body if isinstance(n, ast.For)]
         bufs = {}
         for n in astq.walk_no_nested(fn):
             if isinstance(n, ast.Assign) and len(n.targets) == 1 and isinstance(n.targets[0], ast.Name) \
                     and isinstance(n.value, ast.Call) and sc.ext(n.value.func) in ("numpy.empty", "numpy.zeros"):
                 shp = kw(n.value, "shape") or (n.value.args[0] if n.value.args else None)
-                if isinstance(shp, (ast.Tuple, ast.List)) and shp.elts:
-                    bufs[n.targets[0].id] = shp.elts[0]
+                if isinstance(shp, (ast.Tuple, ast.List)) and len(shp.elts) == 2:
+                    bufs[n.targets[0].id] = shp.elts
         if len(loops) != 1 or len(bufs) != 1:
             ctx.undecided("R2", c, "expected one interval loop and one feature buffer", loc)
             return
         loop = loops[0]
-        var = loop.target.id
-        buf, rows = next(iter(bufs.items()))
+        if isinstance(loop.target, ast.Name):
+            var = loop.target.id
+        elif isinstance(loop.target, ast.Tuple) and isinstance(loop.iter, ast.Call) and sc.ext(loop.iter.func) == "builtins.enumerate" \
+                and isinstance(loop.target.elts[0], ast.Name):
+            var = loop.target.elts[0].id
+        else:
+            ctx.undecided("R2", c, "interval loop variable not interpretable", loc)
+            return
+        buf, shape = next(iter(bufs.items()))
+        top = list(loop.body)
 
-        def affine(e):
+        def counter(name, use_stmt):
+            """name = c0 before the loop, `name += step` once per iteration at the top level of the body -> (step, c0')."""
+            inits = [a.value for a in fn.body if isinstance(a, ast.Assign) and len(a.targets) == 1
+                     and isinstance(a.targets[0], ast.Name) and a.targets[0].id == name]
+            incs = [a for a in top if isinstance(a, ast.AugAssign) and isinstance(a.target, ast.Name) and a.target.id == name]
+            others = [x for x in ast.walk(loop) if isinstance(x, ast.Name) and x.id == name and isinstance(x.ctx, ast.Store)]
+            if len(inits) != 1 or len(incs) != 1 or len(others) != 1 or not isinstance(const(inits[0]), int) \
+                    or not isinstance(incs[0].op, ast.Add) or not isinstance(const(incs[0].value), int):
+                return None
+            step, c0 = const(incs[0].value), const(inits[0])
+            holder = next((t for t in top if any(x is use_stmt for x in ast.walk(t))), None)
+            if holder is None:
+                return None
+            return (step, c0) if top.index(incs[0]) > top.index(holder) else (step, c0 + step)
+
+        def affine(e, subst, use_stmt):
             """e == a * var + b  ->  (a, b)"""
             k = const(e)
             if isinstance(k, int):
                 return (0, k)
             if isinstance(e, ast.Name) and e.id == var:
                 return (1, 0)
+            if isinstance(e, ast.Name) and e.id in subst:
+                return (0, subst[e.id])
             if isinstance(e, ast.Name):
-                vals = [a.value for a in loop.body if isinstance(a, ast.Assign) and len(a.targets) == 1
+                vals = [a.value for a in top if isinstance(a, ast.Assign) and len(a.targets) == 1
                         and isinstance(a.targets[0], ast.Name) and a.targets[0].id == e.id]
-                return affine(vals[0]) if len(vals) == 1 else None
+                if len(vals) == 1:
+                    return affine(vals[0], subst, use_stmt)
+                return counter(e.id, use_stmt)
             if isinstance(e, ast.BinOp) and isinstance(e.op, (ast.Add, ast.Sub)):
-                l, r = affine(e.left), affine(e.right)
+                l, r = affine(e.left, subst, use_stmt), affine(e.right, subst, use_stmt)
                 if l is None or r is None:
                     return None
                 sg = 1 if isinstance(e.op, ast.Add) else -1
                 return (l[0] + sg * r[0], l[1] + sg * r[1])
             if isinstance(e, ast.BinOp) and isinstance(e.op, ast.Mult):
-                l, r = affine(e.left), affine(e.right)
+                l, r = affine(e.left, subst, use_stmt), affine(e.right, subst, use_stmt)
                 if l is None or r is None:
                     return None
                 if l[0] == 0:
@@ -1799,59 +1900,89 @@ class Checker:
                     return (r[1] * l[0], r[1] * l[1])
             return None
 
-        stores = [st for st in loop.body if isinstance(st, ast.Assign) and len(st.targets) == 1
-                  and isinstance(st.targets[0], ast.Subscript) and isinstance(st.targets[0].value, ast.Name)
-                  and st.targets[0].value.id == buf]
-        forms = [affine(st.targets[0].slice) for st in stores]
-        values = [st.value for st in stores]
-        value_scope, value_body = sc, loop.body
-        if not stores:
-            # the rows of interval j are handed to a helper as a slice view buf[lo:hi] and written there as out[b]
-            for st0 in loop.body:
+        layout = set()
+
+        def position(target):
+            """feature-axis index expression of a store into the buffer (row layout buf[p], column layout buf[:, p])."""
+            if not (isinstance(target, ast.Subscript) and isinstance(target.value, ast.Name) and target.value.id == buf):
+                return None
+            sl = target.slice
+            if isinstance(sl, ast.Tuple) and len(sl.elts) == 2 and isinstance(sl.elts[0], ast.Slice) and sl.elts[0].lower is None \
+                    and sl.elts[0].upper is None:
+                layout.add(1)
+                return sl.elts[1]
+            if isinstance(sl, (ast.Tuple, ast.Slice)):
+                return None
+            layout.add(0)
+            return sl
+
+        def tuple_elts(name):
+            vals = [a.value for a in top if isinstance(a, ast.Assign) and len(a.targets) == 1
+                    and isinstance(a.targets[0], ast.Name) and a.targets[0].id == name]
+            return list(vals[0].elts) if len(vals) == 1 and isinstance(vals[0], (ast.Tuple, ast.List)) else None
+
+        forms, values = [], []
+        value_scope, value_body = sc, top
+        for st in top:
+            if isinstance(st, ast.Assign) and len(st.targets) == 1 and position(st.targets[0]) is not None:
+                forms.append(affine(position(st.targets[0]), {}, st))
+                values.append(st.value)
+            elif isinstance(st, ast.For) and isinstance(st.target, ast.Name) and isinstance(st.iter, ast.Call) \
+                    and sc.ext(st.iter.func) == "builtins.range" and len(st.iter.args) == 1 and isinstance(const(st.iter.args[0]), int) \
+                    and len(st.body) == 1 and isinstance(st.body[0], ast.Assign) and len(st.body[0].targets) == 1 \
+                    and position(st.body[0].targets[0]) is not None:
+                inner = st.body[0]
+                for kk in range(const(st.iter.args[0])):
+                    forms.append(affine(position(inner.targets[0]), {st.target.id: kk}, st))
+                    v = inner.value
+                    if isinstance(v, ast.Subscript) and isinstance(v.value, ast.Name) and isinstance(v.slice, ast.Name) \
+                            and v.slice.id == st.target.id and tuple_elts(v.value.id) and kk < len(tuple_elts(v.value.id)):
+                        v = tuple_elts(v.value.id)[kk]
+                    values.append(v)
+        if not forms:
+            # the positions of interval j are handed to a helper as a slice view buf[lo:hi] and written there as out[b]
+            for st0 in top:
                 for call in astq.calls(st0):
-                    views = [(i, a) for i, a in enumerate(call.args) if isinstance(a, ast.Subscript) and isinstance(a.value, ast.Name)
+                    views = [a for a in call.args if isinstance(a, ast.Subscript) and isinstance(a.value, ast.Name)
                              and a.value.id == buf and isinstance(a.slice, ast.Slice) and a.slice.step is None]
                     sym = self.repo.resolve_name(mod, call.func.id) if isinstance(call.func, ast.Name) else None
                     if len(views) == 1 and sym is not None and sym.kind == "func":
-                        i, view = views[0]
-                        lo, hi = affine(view.slice.lower) if view.slice.lower is not None else (0, 0), \
-                            affine(view.slice.upper) if view.slice.upper is not None else None
-                        b = astq.bind_call(sym.target, call)
-                        outp = [p0 for p0, a0 in (b or {}).items() if a0 is view]
+                        view = views[0]
+                        lo = affine(view.slice.lower, {}, st0) if view.slice.lower is not None else (0, 0)
+                        hi = affine(view.slice.upper, {}, st0) if view.slice.upper is not None else None
+                        bnd = astq.bind_call(sym.target, call)
+                        outp = [p0 for p0, a0 in (bnd or {}).items() if a0 is view]
                         if lo is None or hi is None or not outp:
                             continue
                         inner = [x for x in sym.target.body if isinstance(x, ast.Assign) and len(x.targets) == 1
                                  and isinstance(x.targets[0], ast.Subscript) and isinstance(x.targets[0].value, ast.Name)
                                  and x.targets[0].value.id == outp[0] and isinstance(const(x.targets[0].slice), int)]
                         if inner and hi[0] == lo[0] and hi[1] - lo[1] == len(inner):
-                            stores = inner
+                            layout.add(0)
                             forms = [(lo[0], lo[1] + const(x.targets[0].slice)) for x in inner]
                             values = [x.value for x in inner]
                             value_scope, value_body = Scope(self.repo, sym.module, sym.target), sym.target.body
-        if not stores or any(f is None for f in forms):
-            ctx.undecided("R2", c, "feature row indices are not affine in the interval index", loc)
+        if not forms or any(f is None for f in forms) or len(layout) != 1:
+            ctx.undecided("R2", c, "feature positions are not affine in the interval index", loc)
             return
-        K = len(stores)
+        K = len(forms)
         coefs = {f[0] for f in forms}
         offs = sorted(f[1] for f in forms)
-        rows_form = affine_in(rows, K)
+        axis = next(iter(layout))
         good = coefs == {K} and offs == list(range(K))
-        ctx.check(good, "R2", c, "interval j fills rows %d*j + {0..%d}: every feature row is written exactly once" % (K, K - 1),
-                  "interval j writes rows %s: the rows %d*j + {0..%d} are not each written once (a statistic overwrites the row of "
-                  "another interval / a row keeps the uninitialised content of np.empty)" % (
-                      ", ".join("%d*j%+d" % f for f in forms), K, K - 1), self.ctx.loc(mod, stores[0]),
-                  witness={"j": 0, "rows": [f[1] for f in forms]})
-        ctx.check(rows_form, "R2", "_transform:feature-buffer", "buffer has %d rows per interval" % K,
-                  "the buffer is allocated with %s rows, not %d per interval" % (astq.canon(rows), K), self.ctx.loc(mod, fn))
-        # the three statistics
+        ctx.check(good, "R2", c, "interval j fills positions %d*j + {0..%d}: every feature is written exactly once" % (K, K - 1),
+                  "interval j writes positions %s: the positions %d*j + {0..%d} are not each written once (a statistic overwrites the "
+                  "slot of another interval / a slot keeps the uninitialised content of np.empty)" % (
+                      ", ".join("%d*j%+d" % f for f in forms), K, K - 1), loc, witness={"j": 0, "positions": [f[1] for f in forms]})
+        ctx.check(affine_in(shape[axis], K), "R2", "_transform:feature-buffer", "buffer has %d positions per interval" % K,
+                  "the feature axis is allocated with %s positions, not %d per interval" % (astq.canon(shape[axis]), K), loc)
         kinds = []
         for v in values:
             if isinstance(v, ast.Name):
                 vals = [a.value for a in value_body if isinstance(a, ast.Assign) and len(a.targets) == 1
                         and isinstance(a.targets[0], ast.Name) and a.targets[0].id == v.id]
                 v = vals[0] if len(vals) == 1 else v
-            k = value_scope.ext(v.func) if isinstance(v, ast.Call) else None
-            kinds.append(k)
+            kinds.append(value_scope.ext(v.func) if isinstance(v, ast.Call) else None)
         want = {"numpy.mean", "numpy.std", "sktime.utils.slope_and_trend._slope"}
         ctx.check(set(kinds) == want if all(kinds) else None, "R2", "_transform:statistics", "features are mean, std and slope of the slice",
                   "the per-interval statistics are %s, not mean / std / slope" % sorted(str(k) for k in kinds), self.ctx.loc(mod, loop))
